@@ -96,6 +96,18 @@ class Path:
         if getattr(self, "_assumed", False):
             self._assumed = False
             if not self.ctx.feasible(z3.BoolVal(True)):
+                # recorded in the evidence: a path abandoned here is outside the contract's hypotheses (or the hypotheses are inconsistent)
+                ab = self.vc.extra.setdefault("paths_abandoned_as_outside_the_hypotheses", {})
+                ab[self.name] = ab.get(self.name, 0) + 1
+                if os.environ.get("PYVC_DEBUG_ABANDON"):
+                    sol = z3.Solver(); sol.set(unsat_core=True)
+                    hs = self.ctx.hyps()
+                    for k, h in enumerate(hs):
+                        sol.assert_and_track(h, f"h{k}")
+                    if sol.check() == z3.unsat:
+                        print(f"ABANDONED {self.name}@p{self.index}:")
+                        for c in sol.unsat_core():
+                            print("    ", str(hs[int(str(c)[1:])])[:400].replace("\n", " "))
                 raise PathInfeasible()
 
     def _z(self, cond):
